@@ -157,6 +157,7 @@ def _same_body(ex, r, op, n, nouter, body):
     from . import opaque, numeval
     if isinstance(e, bool):
         return e
+    fast = False
     try:
         va, vb = r.body(o, j), body(o, j)
         # structural filter (see opaque.arrays_equal): bodies over different array element functions are different reductions
@@ -167,9 +168,11 @@ def _same_body(ex, r, op, n, nouter, body):
             ca, cb = comps(va), comps(vb)
             if len(ca) == len(cb) and numeval.clearly_different(ex.pc, ca, cb, guard=z3.And(j >= 0, j < tonum(n), *[x >= 0 for x in o])):
                 return False
+            if len(ca) == len(cb):
+                fast = numeval.likely_different(ex.pc, ca, cb, guard=z3.And(j >= 0, j < tonum(n), *[x >= 0 for x in o]))
     except (Unsupported, SymRaise, z3.Z3Exception):
         pass
-    return opaque.entails_ax(ex, z3.Implies(z3.And(j >= 0, j < tonum(n)), toz(tobool(e))))
+    return opaque.entails_ax(ex, z3.Implies(z3.And(j >= 0, j < tonum(n)), toz(tobool(e))), fast=fast)
 
 
 def _make(ex, op, n, nouter, body, kind):
@@ -329,7 +332,21 @@ def scale_lemma(ex, arr1, arr2, c):
     if not ex.entails(tobool(s_eq(arr1.shape[0], arr2.shape[0]))):
         return None
     j = ex.newvar('js', 'int')
-    prem = s_eq(arr1.elem((j,)), s_mul(c, arr2.elem((j,))))
+    lhs, rhs = arr1.elem((j,)), s_mul(c, arr2.elem((j,)))
+    prem = s_eq(lhs, rhs)
+    if prem is not True:
+        # numeric pre-check: a premise that fails on sampled interpretations is not worth a solver call (no lemma is issued: sound)
+        try:
+            from . import numeval
+            opq = lambda t: {n_ for n_ in opaque._array_symbols(t) if n_.startswith(('fft_', 'ifft_', 'L!', 'L_', 'ivp_'))}
+            if opq(lhs) != opq(rhs):
+                return None            # element terms over the outputs of different opaque operator applications: the premise is not provable
+            if isz(toreal(lhs)) and isz(toreal(rhs)) and numeval.likely_different(ex.pc, [toreal(lhs)], [toreal(rhs)], guard=z3.And(j >= 0, j < tonum(arr1.shape[0]))):
+                return None
+        except (Unsupported, z3.Z3Exception, TypeError, AttributeError) as e_:
+            import os
+            if os.environ.get('PYVC_DEBUG'):
+                print('scale_lemma precheck failed:', repr(e_))
     if not (prem is True or opaque.entails_ax(ex, z3.Implies(z3.And(j >= 0, j < tonum(arr1.shape[0])), prem))):
         return None
     s1, s2 = reduce_(ex, 'sum', arr1, 0), reduce_(ex, 'sum', arr2, 0)
